@@ -1,7 +1,7 @@
 #!/bin/sh
 # usage: seed_verify.sh Cxx [tier]  -- verifies a sub-agent's seeded change in /tmp/seed_Cxx + /tmp/seed_out_Cxx,
 # stores it under /verif/seeded/Cxx/, runs the property's check against it, writes meta.json, removes the worktree.
-id=$1; tier=${2:-quick}; wt=/tmp/seed_$id; out=/tmp/seed_out_$id; dst=/verif/seeded/$id
+id=$1; tier=${2:-quick}; rnd=${ROUND:-}; wt=/tmp/seed${rnd}_$id; out=/tmp/seed${rnd}_out_$id; dst=/verif/seeded/$id${rnd:+-r$rnd}
 [ -f $out/patch.diff ] || { echo "no patch for $id"; exit 2; }
 mkdir -p $dst; cp $out/patch.diff $out/notes.md $dst/ 2>/dev/null; cp $out/demo.rs $dst/ 2>/dev/null || cp $wt/tests/demo.rs $dst/
 cd $wt || exit 2
@@ -18,16 +18,16 @@ cd /verif
 full=$(/verif/tools/mutant_test.sh $dst/patch.diff $id $tier 2>&1)
 chk=$(echo "$full" | grep -E "MUTANT-RESULT|TOOL-ERROR" | tr '\n' ' '; echo "$full" | grep -E "VIOLATION|KNOWN" | head -2 | tr '\n' ' ')
 echo "check: $chk"
-python3 - "$id" "$suite" "$demo_with" "$demo_without" "$chk" "$tier" <<'PY'
+python3 - "$id" "$suite" "$demo_with" "$demo_without" "$chk" "$tier" "$dst" <<'PY'
 import json,sys,os
-id,suite,dw,dwo,chk,tier=sys.argv[1:7]
-notes=open('/verif/seeded/%s/notes.md'%id).read() if os.path.exists('/verif/seeded/%s/notes.md'%id) else ''
+id,suite,dw,dwo,chk,tier,dst=sys.argv[1:8]
+notes=open(dst+'/notes.md').read() if os.path.exists(dst+'/notes.md') else ''
 meta={"property":id,"source":"independent sub-agent given only the property text and a scratch worktree",
       "needs_to_manifest":notes[:1500],
       "verified":{"suite_with_patch":suite,"demo_with_patch":dw,"demo_without_patch":dwo},
-      "check_run":"tools/mutant_test.sh seeded/%s/patch.diff %s %s"%(id,id,tier),"check_result":chk,
+      "check_run":"tools/mutant_test.sh %s/patch.diff %s %s"%(dst,id,tier),"check_result":chk,
       "detected":"exit=1" in chk}
-json.dump(meta,open('/verif/seeded/%s/meta.json'%id,'w'),indent=1)
+json.dump(meta,open(dst+'/meta.json','w'),indent=1)
 print("detected:",meta["detected"])
 PY
 git -C /repo worktree remove --force $wt; rm -rf $out
